@@ -1,10 +1,14 @@
 #!/bin/sh
 # usage: tools/run_all_seeds.sh [out_file]   -- applies every /verif/seeded/<name>/patch.diff in a scratch worktree of /repo and
 # runs the property's quick check against it (VERIF_REPO=<worktree>); prints one line per seed: CAUGHT / MISSED / NOAPPLY
+# optional: SHARD=k/n runs every n-th seed starting at k (for parallel streams)
 OUT=${1:-/tmp/all_seeds.txt}
 : > $OUT
+K=${SHARD%/*}; N=${SHARD#*/}; I=0
 for d in /verif/seeded/*/; do
   name=$(basename $d)
+  I=$((I+1))
+  if [ -n "$SHARD" ] && [ $((I % N)) -ne $((K % N)) ]; then continue; fi
   pid=$(/venv/bin/python -c "import json;print(json.load(open('$d/meta.json'))['property'])")
   WT=/tmp/wt_allseeds_$$
   git -C /repo worktree add --detach $WT HEAD -q || exit 2
